@@ -593,6 +593,7 @@ def _alarm(sig, frm):
 def _worker(args):
     import signal
     qn, vi, timeout_ms = args
+    timeout_ms = max(timeout_ms, getattr(load_all()[1][qn], "min_timeout_ms", 0))
     budget = int(os.environ.get("PYVC_FUNCTION_BUDGET_S", "150" if timeout_ms <= 10000 else "900"))
     signal.signal(signal.SIGALRM, _alarm)
     signal.alarm(budget)
